@@ -196,6 +196,19 @@ func runC05(c *mc.Ctx) {
 			rts = append(rts, c05RT{Net: "mainnet", Seed: seeds[0], Path: []uint32{idx}}, c05RT{Net: "mainnet", Seed: seeds[0], Path: []uint32{idx}, Public: true})
 		}
 	}
+	// scalars with two or more leading zero bytes (reference-only scan of hardened children, see C04)
+	{
+		m, _, _ := c04RefMaster(mc.UnHex(seeds[0]))
+		n2 := 0
+		for i := int64(0); i < int64(mc.Pick(c, 1<<19, 1<<21)) && n2 < 8; i++ {
+			idx := uint32(i) | 1<<31
+			if k, _, ok := ref.HardenedChildScalar(m.K, m.ChainCode, idx); ok && k.BitLen() <= 240 {
+				n2++
+				rts = append(rts, c05RT{Net: "mainnet", Seed: seeds[0], Path: []uint32{idx}}, c05RT{Net: "mainnet", Seed: seeds[0], Path: []uint32{idx, 1 << 31}})
+			}
+		}
+		c.Note("double_zero_scalars_round_tripped", n2)
+	}
 	// depth 255
 	{
 		var path []uint32
